@@ -188,6 +188,17 @@ CHECKS = {
             "Pointer mentions count as dependencies (bindgen defines pointee types it has seen); blocklisted-root and non-recursive "
             "outputs are not compiled; allowlist-file is exercised only through C13/C17.",
             "6/C09"),
+    "C04": ("exploration",
+            "exhaustive enumeration of function signatures over a 51-type alphabet (every type as result / parameter, all ordered "
+            "parameter pairs, struct x struct, triples, variadic tails, register exhaustion, Win64-ABI functions, keyword and `$` "
+            "names, function-pointer results) and globals x 8 option rows; each linked against a clang-compiled object and executed",
+            "clang compiles C definitions that fold every argument leaf into an FNV-1a hash stored in a global and derive every "
+            "result leaf from it; a rustc-built caller links against that object, calls every function three times through the real "
+            "bindings with rotating boundary values and compares with the same fold computed in Rust; linking proves symbol identity, "
+            "globals are read/written from both sides and checked for mutability.",
+            "Host ABI (SysV x86-64 + ms_abi) only; long double is left out (no 80-bit float in Rust); C++ methods and foreign-target "
+            "symbol decoration are not generated; a crash of the caller is attributed to its whole library.",
+            "6/C04"),
 }
 
 PENDING = set()  # built but unchanged-tree findings not yet triaged: not claimed until the quick tier is clean
